@@ -14,7 +14,7 @@ from vfw.schema import CLS, T
 BOUNDS = ("identifier kernel: every class, both forms, every tag number < 2^36 (quick) / 2^63 (thorough) through the real encodeTag and the real decoder "
           "identifier loop (cut at Tag()); tag algebra: one tagging step (implicit/explicit x class x number from {0,1,30,31,127,128,16383,16384,2^32}) "
           "applied to each of 14 representative tag stacks of depth 0..4, compared with a list model; wire: identifier octets of every tagged catalogue "
-          "schema equal the reference's, outermost to innermost; decoding with the type perturbed at one symbolic level (class or number) rejects")
+          "schema equal the reference's, outermost to innermost; decoding with the type perturbed at one symbolic level (class or number) rejects; two sibling members with any pair of pool tags in one SEQUENCE/SET are told apart")
 OUTSIDE = "tag numbers >= 2^36 (2^63); stacks deeper than 5"
 ASSUMPTIONS = ["identifier kernel replaces the name `tag` inside pyasn1.codec.ber.decoder by a shim whose Tag() records its arguments (numbers that reach Tag() are hashed, i.e. enumerated); everything before that call is the real code"]
 
@@ -163,6 +163,8 @@ def perturb(sid, level, what, **slots):
     tags = list(e.t.tags)
     if level >= len(tags):
         raise Skip()
+    if level + 1 < len(tags) and tags[level + 1][0] == "I":
+        raise Skip()  # this tag is replaced by the IMPLICIT tag applied on top of it: it never reaches the wire
     m, c, n = tags[level]
     if what == 0:
         c2 = {"A": "C", "C": "P", "P": "A"}[c]
@@ -185,7 +187,50 @@ def perturb(sid, level, what, **slots):
     return "a type whose tag differs at level %s (%s) accepts the encoding" % (level, ("class", "number+1", "number")[what])
 
 
+def siblings(container, c1, n1, c2, n2, explicit, v1, v2, indef):
+    """Two sibling members whose tags come from the pool (same or different class, short and long form): the type accepts its
+    own encoding with the right values, the members are told apart, and the type with the two tags exchanged rejects."""
+    t1, t2 = ("ACP"[c1], POOL[n1]), ("ACP"[c2], POOL[n2])
+    if t1 == t2:
+        raise Skip()
+    mode = "E" if explicit else "I"
+    kind = "SEQ" if container == 0 else "SET"
+    ta = T(kind, comps=[("a", T("INT").tagged((mode, t1[0], t1[1])), "req", None), ("b", T("INT").tagged((mode, t2[0], t2[1])), "req", None)])
+    tb = T(kind, comps=[("a", T("INT").tagged((mode, t2[0], t2[1])), "req", None), ("b", T("INT").tagged((mode, t1[0], t1[1])), "req", None)])
+    av = {"a": v1, "b": v2}
+
+    class Ch(R.Choices):
+        def indef(self, t, level):
+            return indef and level == 0
+
+    enc = bytes(R.ber_nd(ta, av, Ch()))
+    mine = ber_encoder.encode(build(ta, av))
+    if container == 0 and not indef and mine != enc:
+        return "encoder output differs from the reference encoding of the two tagged members"
+    try:
+        w, rest = ber_decoder.decode(substrate(enc), asn1Spec=mk_type(ta))
+    except error.PyAsn1Error:
+        return "the type rejects its own encoding (sibling tags %s and %s)" % (t1, t2)
+    if len(rest) or not same(ta, absval(ta, w), av):
+        return "sibling members decoded to the wrong values"
+    if container == 0:
+        try:
+            ber_decoder.decode(substrate(enc), asn1Spec=mk_type(tb))
+        except error.PyAsn1Error:
+            return None
+        return "a SEQUENCE whose two member tags are exchanged accepts the encoding"
+    # SET: members are found by tag, so the exchanged type accepts but must assign the values the other way round
+    w2, rest2 = ber_decoder.decode(substrate(enc), asn1Spec=mk_type(tb))
+    if not same(tb, absval(tb, w2), {"a": v2, "b": v1}):
+        return "SET members were not matched by their tags"
+    return None
+
+
 OBLIGATIONS = [
+    Obl("siblings", siblings, {"container": I(0, 1), "c1": I(0, 2), "n1": I(0, len(POOL) - 1), "c2": I(0, 2), "n2": I(0, len(POOL) - 1), "explicit": B,
+                               "v1": I(5, 6), "v2": I(199, 200), "indef": B},
+        shards=[{"container": C(k), "n1": C(a), "explicit": C(e_), "indef": C(i_)} for k in (0, 1) for a in range(len(POOL)) for e_ in (False, True) for i_ in (False, True)], budget=150,
+        doc="two sibling members with pool tags (short/long form, equal/different class) in one SEQUENCE/SET: accepted, told apart, exchanged tags rejected"),
     Obl("ident_decode", ident_decode, {"c": I(0, 3), "f": B, "num": I(0, 2 ** 36), "tail": BYTE}, thorough={"num": I(0, 2 ** 63)},
         shards=[{"c": C(c)} for c in range(4)], budget=120, thorough_budget=400,
         doc="reference identifier octets -> real decoder identifier loop -> (class, form, number), for every number in range"),
